@@ -259,4 +259,28 @@ CHECKS = {
              "distance oracle); hop count after the random spiral "
              "adjustment; exactly-once coverage of concentric_hexagons. "
              "Trusted: the six link vectors transcribed in rules/C11.py."),
+    "C04": dict(
+        technique="bit-parallel truth-table extraction of the key/mask "
+                  "algebra, CFG dominance / must-pass-through for the "
+                  "default-route predicate and covering ranges, effect "
+                  "analysis for alias dictionaries, linear-constraint "
+                  "abstract interpretation of the insertion-point search",
+        text="intersect, the merged key/mask, X-bit and settable-bit "
+             "expressions equal their specification on every bit pattern "
+             "(R1). An entry is dropped only under all of: one source, one "
+             "route, source known, both links, straight through, and alias "
+             "check disabled-or-clean; the alias scan compares the entry's "
+             "key/mask with every lower entry's; the check is skipped only "
+             "under the equal-masks/distinct-keys test and by no call site "
+             "constant (R2). Up-check range table[i+1:insertion_index], "
+             "down-check table[insertion_index:] through aliases, insertion "
+             "exactly at that index, 'changed' never reset, down/up/down "
+             "order (R3). Removed entries' aliases recorded; dictionaries "
+             "copied not shared (R4). Failure/target contracts of all "
+             "minimisers (R5). Every routing_table[...] index in the "
+             "insertion search proved within range, empty table included "
+             "(R6).",
+        note="Not decided: sufficiency of the up-/down-check refinement for "
+             "functional equivalence on every table (an induction over merge "
+             "sequences); which members _refine_downcheck chooses to drop."),
 }
